@@ -3,4 +3,5 @@ import GV.Driver.C09
 
 def main : IO Unit := GV.Driver.run fun
   | "types" :: rest => GV.Driver.C09.handle rest
+  | "recv" :: rest => GV.Driver.C09.handleRecv rest
   | _ => "bad-topic"
